@@ -59,3 +59,18 @@ PROPS['C03'] = {
 
 PROPS['C04']['race_phase'] = True
 PROPS['C02']['race_phase'] = True
+
+SRV_TRUSTED = ['modelled not verified: the insomniacslk/dhcp DHCPv4 codec and constructors (FromBytes, ToBytes, NewReplyFromRequest, MessageType, IsBroadcast, UpdateOption) - models take the parsed message; net.IP.Equal/IsUnspecified/IsLinkLocalUnicast/To4 (lib/Net.v, model/Server4.v); the kernel behind WriteTo; net.InterfaceByIndex and the AF_PACKET send in sendEthernet',
+               'the capture hook server/verif_hook.go (build tag verif): WriteTo of listener4/listener6 shadowed to hand (payload, control message, destination) to the harness; the layer-2 decision is read from the "Can not get Interface for index" log line (interface indexes 7001.. do not exist, so no frame is ever sent)']
+SRV_ASSUME = ['theorems quantify over all parsed messages (a superset of what the library parser can produce) and arbitrary handler functions; that a datagram actually leaves on the pinned interface is outside the model']
+def _srv(pid, text, tech):
+    return {'props': 'props/%s.v' % pid, 'run_models': ['model/Server4Run.v'], 'trusted': SRV_TRUSTED, 'assumes': SRV_ASSUME,
+            'level_text': text + ' The model of HandleMsg4 / LoadPlugins (coq/model/Server4.v) is run against the real code through the capture hook on: the opcode x option-53 table, the RFC 2131 4.1 addressing table, all chains of <=3 synthetic plugins over 5 behaviours and random chains of <=5 over 9 behaviours registered through plugins.RegisterPlugin and instantiated by plugins.LoadPlugins, malformed datagrams, and LoadPlugins configurations; independent monitors restate the property on what the implementation did.',
+            'level_note': 'Trusted: Coq kernel; hand-written Gallina model of server/handle.go HandleMsg4 and plugins.LoadPlugins tied to the code by the differential correspondence through the verif capture hook on every run; the DHCPv4 codec is a library (models take parsed messages). No axioms.',
+            'technique': tech}
+PROPS['C11'] = _srv('C11', 'Theorems (coq/props/C11.v), for any handlers, listener and control message: reply4_only_to_requests / no_reply_table / unparsed_never_answered (a send happens only for a datagram that parsed, has opcode BOOTREQUEST and message type DISCOVER or REQUEST - over all opcodes and all option-53 values incl. absent and wrong length); reply4_stub (the response handed to the first handler is a BOOTREPLY with the request xid, htype, chaddr, flags, giaddr, options 82/61 echoed, OFFER resp. ACK); reply4_matches_request (through any chain of header-preserving handlers the reply keeps all of that and is OFFER/ACK or NAK).',
+                     'Coq proof (case analysis over the model of HandleMsg4 for arbitrary handlers; invariant preserved along the chain) + differential correspondence through the capture hook + monitors')
+PROPS['C13'] = _srv('C13', 'Theorems (coq/props/C13.v), for arbitrary handler functions: chain_order (invocation indices are 0,1,..,k consecutive, at most once each), chain_threading (handler i gets the original request and the response returned by handler i-1; after the first stop nothing runs and the result is what was returned last), chain_prefix_no_stop, chain_result_sent (what is sent is the last returned response; nil sends nothing), load_list_ok / load_list_err / load_plugins_exact (handlers = listed plugins with a setup for the protocol, in file order; unknown name, failing setup or nil handler = error).',
+                     'Coq proof (induction over the handler list with an invocation log; inductive characterisation of LoadPlugins) + differential correspondence with synthetic plugins through LoadPlugins and the capture hook + monitors')
+PROPS['C15'] = _srv('C15', 'Theorems (coq/props/C15.v), one per row of RFC 2131 4.1, for any handlers: dest4_relay (giaddr set: giaddr:67), dest4_nak (else NAK: broadcast:68 pinned), dest4_ciaddr (else ciaddr:68), dest4_bflag (else broadcast flag: broadcast:68 pinned), dest4_l2 (else link-level unicast on the bound interface, else the receiving one; with neither nothing is sent and nothing panics), dest4_port_and_pin (port 67 iff relayed; pinned iff destination is broadcast or link-local), pick_if_table, l2_frame_fields.',
+                     'Coq proof (row-by-row characterisation of the destination cascade of the HandleMsg4 model) + differential correspondence over the whole addressing table through the capture hook + monitors')
